@@ -69,6 +69,15 @@ func runSelfTest(repo, prop string, print bool, out map[string]any) int {
 	}
 	var results []result
 	tally := map[string]int{}
+	known, _ := loadKnown(filepath.Join(verifDir, "KNOWN_FINDINGS.txt"))
+	isKnown := func(id string) bool {
+		for _, k := range known {
+			if k.Key == id {
+				return true
+			}
+		}
+		return false
+	}
 	for _, m := range ms {
 		res := result{ID: m.ID, Kind: m.Kind}
 		overlay := map[string][]byte{}
@@ -119,7 +128,7 @@ func runSelfTest(repo, prop string, print bool, out map[string]any) int {
 						rep.Undecided("floor", "", "below floor")
 					}
 					for _, o := range rep.Obs {
-						if o.Status == "violation" || o.Status == "undecided" {
+						if (o.Status == "violation" && !isKnown(o.ID())) || o.Status == "undecided" {
 							res.Fired = append(res.Fired, o.Status+" "+o.ID())
 							if strings.Contains(o.ID(), m.Expect) {
 								hit = true
